@@ -295,7 +295,7 @@ pub fn run(ctx: &Ctx) -> Report {
 
     // wl 4: random tuples
     let per = ctx.inner(500);
-    run_cases(ctx, &mut rep, 4, ctx.n(2000, 200_000), |l, rng, _| {
+    run_cases(ctx, &mut rep, 4, ctx.n(10_000, 400_000), |l, rng, _| {
         for _ in 0..per {
             let (y, mo, d, h, mi, s, ns) = rand_fields(rng);
             check_new(l, y, mo, d, h, mi, s, ns);
